@@ -62,18 +62,18 @@ class OneBinding(Proxy):
 
 def scope_kinds():
     import supp.scope as S
-    src = S.SourceScope.__new__(S.SourceScope)
+    src = loader.bare_instance(S.SourceScope)
     src.nonlocals = EmptySet()
-    cls = S.ClassScope.__new__(S.ClassScope)
+    cls = loader.bare_instance(S.ClassScope)
     cls.nonlocals = EmptySet()
     cls.parent = src
-    meth = S.FuncScope.__new__(S.FuncScope)
+    meth = loader.bare_instance(S.FuncScope)
     meth.parent = cls
-    func = S.FuncScope.__new__(S.FuncScope)
+    func = loader.bare_instance(S.FuncScope)
     func.parent = src
-    inner = S.FuncScope.__new__(S.FuncScope)
+    inner = loader.bare_instance(S.FuncScope)
     inner.parent = meth
-    lam = S.FuncScope.__new__(S.FuncScope)
+    lam = loader.bare_instance(S.FuncScope)
     lam.parent = func
     lam.name = 'lambda'
     for sc in (meth, func, inner, lam):
@@ -90,12 +90,12 @@ def binding_kinds(scope):
         if cls is Nm.ImportedName:
             for star in (False, True):
                 for fut in (False, True):
-                    o = cls.__new__(cls)
+                    o = loader.bare_instance(cls)
                     o.is_star, o.qualified = star, False
                     o.module = '__future__' if fut else 'os'
                     out.append(('import%s%s' % ('-star' if star else '', '-future' if fut else ''), o))
         else:
-            o = cls.__new__(cls)
+            o = loader.bare_instance(cls)
             out.append((cls.__name__, o))
     return out
 
@@ -227,7 +227,7 @@ def lint_report_loop(run, twin=None):
                         obj.used = True
                     elif 'used' in obj.__dict__:
                         del obj.__dict__['used']
-                    flow = S.Flow.__new__(S.Flow)
+                    flow = loader.bare_instance(S.Flow)
                     flow.scope = scope
                     qi = QSet()
                     holder.update(name=obj, flow=flow, dl=dl, dc=dc, qi=qi)
@@ -282,10 +282,10 @@ def table_values(ident):
     for q in (False, True):
         i = Nm.ImportedName(ident, (1, 0), (1, 7), 'os', None, qualified=q)
         out.append(('ImportedName%s' % ('-qualified' if q else ''), i, [i]))
-    f = S.FuncScope.__new__(S.FuncScope)
+    f = loader.bare_instance(S.FuncScope)
     f.name, f.location, f.declared_at = ident, (2, 4), (1, 4)
     out.append(('FuncScope', f, [f]))
-    c = S.ClassScope.__new__(S.ClassScope)
+    c = loader.bare_instance(S.ClassScope)
     c.name, c.location, c.declared_at = ident, (2, 4), (1, 6)
     out.append(('ClassScope', c, [c]))
     r = Nm.RuntimeName(ident, getattr(builtins, ident, None), True)
